@@ -239,9 +239,10 @@ impl<AnyLoader: Loader> Context<AnyLoader> {
         // Or is this fine?
         // Try relative to the importing file, then unchanged (the
         // loader tries the url in each of its load paths).
-        let relative_url = relative(&from, url);
+        let url = normalize(url);
+        let relative_url = relative(&from, &url);
         let found = match self.do_find_file(&relative_url, names)? {
-            None if relative_url != url => self.do_find_file(url, names)?,
+            None if relative_url != url => self.do_find_file(&url, names)?,
             found => found,
         };
         if let Some((path, mut file)) = found {
@@ -317,9 +318,31 @@ fn relative<'a>(base: &SourceKind, url: &'a str) -> Cow<'a, str> {
         .and_then(|base| {
             base.rfind('/')
                 .map(|p| base.split_at(p + 1).0)
-                .map(|base| format!("{base}{url}").into())
+                .map(|base| normalize(&format!("{base}{url}")).into_owned())
         })
-        .unwrap_or_else(|| url.into())
+        .map_or_else(|| url.into(), Cow::Owned)
+}
+
+/// Remove `.` segments and fold `dir/..` segments of a relative url,
+/// so that different spellings of a url name the same file.
+fn normalize(url: &str) -> Cow<'_, str> {
+    if url.contains("://") || !url.split('/').any(|s| s == "." || s == "..") {
+        return url.into();
+    }
+    let mut result: Vec<&str> = Vec::new();
+    for segment in url.split('/') {
+        match segment {
+            "." => (),
+            ".." if result
+                .last()
+                .is_some_and(|s| !s.is_empty() && *s != "..") =>
+            {
+                result.pop();
+            }
+            s => result.push(s),
+        }
+    }
+    result.join("/").into()
 }
 
 impl<T: fmt::Debug> fmt::Debug for Context<T> {
